@@ -57,6 +57,11 @@ RELATIONS = [
     ('B', "x' = ite(q /\\ p, x, 0)", ["x'"]),
     ('B', "p' <=> p", ["p'", "q'"]),
     ('B', "(y < 0) => (p' /\\ x' = 3)", ["p'", "x'"]),
+    # Mealy style: the relation reads next values that are not outputs;
+    # they are part of the state handed to step()
+    ('N', "y' = x' - 1", ["y'"]), ('B', "(y' = x' - 1) /\\ (p' <=> ~ q')",
+                                   ["y'", "p'"]),
+    ('S', "(y' = x') \\/ (y' = x)", ["y'"]),
     ('W', "y' = x + 8", ["y'"]), ('W', "(x < 0) => (y' = 0 - x)", ["y'"]),
     ('W', "x' = x /\\ y' = y", ["x'", "y'"]),
     ('W', "y' = ite(x > y, x, y)", ["y'"]),
@@ -142,6 +147,10 @@ def run_rel(case, acc):
     case = dict(case, **desc)
     decl = DECLS[dname]
     state_vars = sorted(decl)
+    # primed variables the relation reads without being asked to output them
+    extra = sorted({ro_owner(aut, b) for b in aut.bdd.support(u)} -
+                   set(state_vars) - set(outs))
+    state_vars = state_vars + extra
     names = state_vars + outs
     T = ro.Reader(aut, names).table(u) if \
         aut.bdd.support(u) <= set(ro.Reader(aut, names).allbits) else None
@@ -157,7 +166,8 @@ def run_rel(case, acc):
         by_state.setdefault(r[:ns_], set()).add(r[ns_:])
     nonfun = any(len(v) > 1 for v in by_state.values())
     n = 0
-    for st in itertools.product(*[ro.rep_range(decl[v]) for v in state_vars]):
+    for st in itertools.product(*[ro.rep_range(decl[v.rstrip("'")])
+                                  for v in state_vars]):
         if st not in by_state:
             continue
         n += 1
@@ -238,6 +248,13 @@ def run_alltab(case, acc):
     acc.ev(dict(c=case), nontrivial=any(len(v) > 1 for v in adm.values()),
            n=max(n, 1))
     acc.count('programs')
+
+
+def ro_owner(aut, bit):
+    for v in aut.vars:
+        if bit in ro.bits_of(aut, v):
+            return v
+    return bit
 
 
 def _c_to_python(code):
